@@ -240,6 +240,24 @@ constraint:
 	if latePK != nil {
 		st.setPK(latePK)
 	}
+	if ct.WithoutRowid {
+		// SQLite leaves out a primary key column which is in the key
+		// already (with the same collate): PRIMARY KEY(a, b, a)
+		var pk []IndexColumn
+		for _, c := range st.PK {
+			dup := false
+			for _, have := range pk {
+				if sameIndex([]IndexColumn{have}, []IndexColumn{c}) {
+					dup = true
+					break
+				}
+			}
+			if !dup {
+				pk = append(pk, c)
+			}
+		}
+		st.PK = pk
+	}
 
 	return st
 }
